@@ -161,7 +161,8 @@ def compare(recs):
                 ts = rec.get("tsem", [])
                 if k < len(ts):
                     stats["tsem_compared"] = stats.get("tsem_compared", 0) + 1
-                    if ts[k] in ("(crash)", "(nofuel)", "(no-result)") or ts[k].startswith("(model-crash"):
+                    if not (ts[k].startswith("(ok ") or ts[k].startswith("(panic ")):
+                        # crash / nofuel / timeout / abort of the model runner: the bit-level semantics gave no answer
                         stats["tsem_outside"] = stats.get("tsem_outside", 0) + 1
                     elif ts[k] != r:
                         issues.append((rec, cfg, k, "tsem-mismatch", ts[k], r))
